@@ -6,6 +6,7 @@ package grid
 // counts as a use of every referenced local blob.
 
 import (
+	"time"
 	"os"
 	"bytes"
 	"context"
@@ -224,10 +225,20 @@ type c06Answer struct {
 }
 
 func (p *c06Pool) ask(key string) c06Answer {
-	ctx, cancel := ctxT()
-	defer cancel()
 	var a c06Answer
-	res, err := p.f.ac.GetActionResult(ctx, &pb.GetActionResultRequest{ActionDigest: &pb.Digest{Hash: key, SizeBytes: 1}})
+	var res *pb.ActionResult
+	var err error
+	// a client-side deadline on an overloaded machine is not an answer of the server: ask again
+	// (a handler that really never answers is C14's subject and still ends up here as an error)
+	for attempt := 0; attempt < 3; attempt++ {
+		ctx, cancel := context.WithTimeout(context.Background(), time.Duration(60*(attempt+1))*time.Second)
+		res, err = p.f.ac.GetActionResult(ctx, &pb.GetActionResultRequest{ActionDigest: &pb.Digest{Hash: key, SizeBytes: 1}})
+		cancel()
+		if status.Code(err) != codes.DeadlineExceeded {
+			break
+		}
+		c06Retries++
+	}
 	switch {
 	case err == nil:
 		a.grpc, a.ar = "hit", res
@@ -242,6 +253,7 @@ func (p *c06Pool) ask(key string) c06Answer {
 }
 
 var c06Ctr int
+var c06Retries int // GetActionResult calls re-asked after a client-side deadline
 
 // runCell stores the AR (and its tree blob if treeState says so) and checks the three front ends.
 func (p *c06Pool) runCell(rep *vlib.Report, cfg string, sh c06Shape, assign []byte, cls string) {
@@ -466,6 +478,9 @@ func TestC06(t *testing.T) {
 	}
 	for _, pn := range p.f.takePanics() {
 		rep.Violate("C14 handler panic during C06", pn, nil)
+	}
+	if c06Retries > 0 {
+		rep.Extra["client_deadline_retries"] = c06Retries
 	}
 	rep.Sample(map[string]interface{}{"cfg": cfg, "shapes": len(c06Shapes(vlib.Thorough())), "alphabet": alphabet, "max_refs": maxK})
 }
